@@ -287,6 +287,12 @@ func (r *recorder) scenario(env *core.Env, idx int, nsubs, maxRecs int) error {
 		if err != nil {
 			return err
 		}
+		// pin the unlogged task steps down every now and then (keeps the validation search small)
+		if rng.Intn(env.OptInt("quiet", 2)) == 0 {
+			if err := r.quiet(); err != nil {
+				return err
+			}
+		}
 	}
 	// closing observations: everything idle, then the stored last pushed sequences
 	r.setFailP(0)
